@@ -223,5 +223,26 @@ func (E *Engine) registerGenerated() {
 	add("consts", E.genConsts())
 	add("height", E.genHeight())
 	add("spanof", E.genSpanOf())
+	for _, f := range []SpecFun{
+		{Name: "vis", Args: []string{"Seq_Node", "Node"}, Ret: "Bool"},
+		{Name: "Pre", Args: []string{"Node", "Seq_Node"}, Ret: "Seq_Node"},
+		{Name: "PreOpt", Args: []string{"Node", "Seq_Node"}, Ret: "Seq_Node"},
+		{Name: "PKr", Args: []string{"Seq_Node", "Int", "Seq_Node"}, Ret: "Seq_Node"},
+		{Name: "PKprops", Args: []string{"Seq_Node", "Int", "Seq_Node"}, Ret: "Seq_Node"},
+		{Name: "PreS", Args: []string{"Seq_Node", "Seq_Node"}, Ret: "Seq_Node"},
+		{Name: "walkWF", Args: []string{"Node"}, Ret: "Bool"},
+		{Name: "walkWFL", Args: []string{"Seq_Node", "Int"}, Ret: "Bool"},
+		{Name: "walkWFprops", Args: []string{"Seq_Node", "Int"}, Ret: "Bool"},
+		{Name: "walkWFopt", Args: []string{"Node"}, Ret: "Bool"},
+		{Name: "isNilNode", Args: []string{"Node"}, Ret: "Bool"},
+		{Name: "size", Args: []string{"Node"}, Ret: "Int"},
+		{Name: "lsizeFrom", Args: []string{"Seq_Node", "Int"}, Ret: "Int"},
+		{Name: "psizeFrom", Args: []string{"Seq_Node", "Int"}, Ret: "Int"},
+		{Name: "stackSize", Args: []string{"Seq_Node"}, Ret: "Int"},
+		{Name: "pcountFrom", Args: []string{"Seq_Node", "Int"}, Ret: "Int"},
+	} {
+		E.Spec.Funs[f.Name] = f
+	}
+	add("walk", E.genWalk())
 	E.genSpanContracts()
 }
